@@ -19,8 +19,9 @@ RULE = (
     "hits only / holds only / both, optionally ending before later tempo points, optionally a last hold whose tail is "
     "the latest time (StepMania: optional mines, rolls, stops, ...); 0..5 (thorough 12) SVs placed on a tempo point, "
     "on another SV, before the first tempo point, after the last object or in between; override None or a positive "
-    "float. A second sub-check enumerates every tempo layout of <= 3 points on the lattice {0,100,200,300} x 2 bpm "
-    "values x every row order x every placement of <= 2 SVs on {-100..500}. Oracle: plain-Python accumulation of "
+    "float. A second sub-check enumerates every tempo layout of <= 3 points on the lattice {0,100,200} (thorough "
+    "{0,100,200,300}) x 2 bpm values x every row order x every placement of <= 2 SVs on the lattice from -100 to two "
+    "steps past the last tempo slot (thorough: x 3 object layouts); game and override rotate with the case index. Oracle: plain-Python accumulation of "
     "active time per bpm value (Fractions) under each reading of 'last object'; step functions for the active bpm and "
     "the active SV. Non-trivial = >= 2 distinct bpm values and >= 1 SV."
 )
@@ -275,8 +276,9 @@ def lattice_case(game, tempo, svs, notes, override):
 
 
 def lattice_cases(tier):
-    lat = [0, 100, 200, 300]
-    sv_lat = [-100, 0, 100, 200, 300, 400, 500]
+    lat = [0, 100, 200, 300] if tier == "thorough" else [0, 100, 200]
+    last_hit, tail = lat[-1] + 100, lat[-1] + 200
+    sv_lat = list(range(-100, tail + 1, 100))
     layouts = []
     for k in (1, 2, 3):
         for ts in itertools.combinations(lat, k):
@@ -289,16 +291,15 @@ def lattice_cases(tier):
     for tempo in layouts:
         t0 = min(t for t, _ in tempo)
         shapes = [
-            [(t0, None), (400, None)],  # hits; the last after every tempo point
+            [(t0, None), (last_hit, None)],  # hits; the last after every tempo point
             [(t0, None)],  # a single object on the first tempo point: later tempo points follow the last object
-            [(t0, None), (t0 + 100, 500 - (t0 + 100))],  # the last object is a hold, its tail (500) the latest time
+            [(t0, None), (t0 + 100, tail - (t0 + 100))],  # the last object is a hold, its tail the latest time
         ]
         for svs in sv_sets:
             if tier == "thorough":
                 for shape in shapes:
-                    for ov in (None, 150.0):
-                        yield lattice_case(("osu", "qua")[i % 2], tempo, svs, shape, ov)
-                        i += 1
+                    yield lattice_case(("osu", "qua")[i % 2], tempo, svs, shape, (None, 150.0, None, None, 150.0)[i % 5])
+                    i += 1
             else:
                 yield lattice_case(("osu", "qua")[i % 2], tempo, svs, shapes[i % note_variants], (None, 150.0, None, None, 150.0)[i % 5])
                 i += 1
@@ -438,13 +439,17 @@ def check(case, ctx):
         problems[ref] = bad
     if problems:
         ref, (t, v, b, mults, exp) = sorted(problems.items())[0]
-        # which clause?  recompute with the multiplier ignored / the reference ignored
-        if any(_rel_ok(v * r2, b * mu) for mu in mults for r2 in {x for _, x in tempo} | ({float(override)} if override else set())):
-            kind = "speed-reference"
+        # name the clause: which single factor, replaced by another value of the chart, explains the number?
+        all_mults = {mu for _, mu in svs} | {1.0}
+        all_refs = {x for _, x in tempo} | ({float(override)} if override else set())
+        if has_sv and any(_rel_ok(v, b / ref * mu) for mu in all_mults):
+            kind = "speed-sv"
         elif any(_rel_ok(v, bb / ref * mu) for mu in mults for _, bb in tempo):
             kind = "speed-active-bpm"
+        elif any(_rel_ok(v * r2, b * mu) for mu in mults for r2 in all_refs):
+            kind = "speed-reference"
         else:
-            kind = "speed-sv" if has_sv else "speed-value"
+            kind = "speed-value"
         ctx.fail(kind, f"t={t}: speed {v!r}, expected one of {exp} (active bpm {b}, reference {ref}{' override' if override else ''}, allowed multipliers {mults}); index={items}")
 
     # (3) SV normalisation ---------------------------------------------------------
@@ -475,19 +480,19 @@ def check(case, ctx):
 
 
 SUBS = [
-    Sub("layouts", check, strategy=case_st, examples={"quick": 400, "thorough": 3000}, shards={"quick": 6, "thorough": 16}),
+    Sub("layouts", check, strategy=case_st, examples={"quick": 400, "thorough": 2000}, shards={"quick": 8, "thorough": 16}),
     Sub(
         "lattice",
         check,
         enumerate=lattice_cases,
-        shards={"quick": 10, "thorough": 16},
+        shards={"quick": 8, "thorough": 16},
         exhaustive=True,
-        doc="every tempo layout of <=3 points on {0,100,200,300} x {100,200} bpm x row order x every placement of <=2 SVs on {-100..500}",
+        doc="every tempo layout of <=3 points on {0,100,200} (thorough {0,..,300}) x {100,200} bpm x row order x every placement of <=2 SVs on the lattice -100..last slot+200",
     ),
 ]
 
 MANIFEST = dict(
     technique="property-based testing + exhaustive enumeration of a small lattice: generated tempo/SV/object layouts of all five games vs a plain-Python accumulation of active time per bpm value and step-function model of the active bpm and SV",
-    level_text="Exploration with an exhaustive core: every tempo layout of up to 3 points on a 4-point lattice (2 bpm values, every row order; 248 layouts) combined with every placement of up to 2 SVs on a 7-point lattice (36) is checked for osu and Quaver, and thousands of generated charts per run (five games, shuffled rows, repeated and near-equal bpm values, ties, SVs on tempo points / on each other / before the first tempo point / after the last object, holds whose tail is the latest time, tempo points after the last object, override or not) agree with an independent reference for dominant_bpm (validity predicate: a maximiser under one of the readings of 'last object'), scroll_speed (every index entry from the first tempo point on; index contains every breakpoint) and sv_normalize (count, times, multiplier*bpm == reference); the argument is snapshotted before and after each call.",
+    level_text="Exploration with an exhaustive core: every tempo layout of up to 3 points on a 3-point lattice (2 bpm values, every row order; 78 layouts) combined with every placement of up to 2 SVs on a 6-point lattice (28) is checked for osu and Quaver in the quick tier (thorough: 4-point lattice, 248 layouts x 36 SV placements x 3 object layouts), and thousands of generated charts per run (five games, shuffled rows, repeated and near-equal bpm values, ties, SVs on tempo points / on each other / before the first tempo point / after the last object, holds whose tail is the latest time, tempo points after the last object, override or not) agree with an independent reference for dominant_bpm (validity predicate: a maximiser under one of the readings of 'last object'), scroll_speed (every index entry from the first tempo point on; index contains every breakpoint) and sv_normalize (count, times, multiplier*bpm == reference); the argument is strictly snapshotted before the first and after the last call.",
     level_note="trusted: the 60-line reference in vlib/props/C19.py, vlib/gen/build.py; deliberately weak: which reading of 'last object' (any accepted), ties, speed before the first tempo point (unasserted)",
 )
